@@ -12,7 +12,8 @@ from typing import Any
 
 from .specgen import Doc, ref
 
-NAMES = ["Pet", "Order", "Invoice", "Shipment", "Account", "Sensor", "Device", "Reading", "Customer", "Ticket", "Route", "Parcel"]
+NAMES = ["Pet", "Order", "Invoice", "Shipment", "Account", "Sensor", "Device", "Reading", "Customer", "Ticket", "Route", "Parcel",
+         "HTTPValidationError", "user_profile", "OrderV2"]     # (names that class-name derivation rewrites)
 PROP_POOL = ["id", "name", "createdAt", "updated_at", "unit-price", "itemCount", "tags", "meta", "owner", "parent_id", "isActive",
              "geo.lat", "$ref_like", "@type", "class", "from", "X-Rate", "9lives", "total", "notes", "homeURL", "e_mail"]
 FORMATS = [None, None, None, "date-time", "date", "uuid", "byte", "email", "uri", "time"]
